@@ -2,6 +2,7 @@ import Driver.Common
 import Driver.Murmur
 import QlibcModel.ListTbl.Model
 import QlibcModel.ListTbl.Fault
+import QlibcModel.ListTbl.Args
 open Qlibc Qlibc.ListTbl Qlibc.MapFault
 
 namespace Driver.ListTbl
@@ -154,7 +155,7 @@ def step (st0 : St) (ws : List String) : St × String :=
         fin { st with cur := cs.getLast?.getD Cursor.zero, live := true, fresh := false }
           ("walk" ++ String.join (cs.map fun c => " " ++ showCur c) ++ " false ENOENT")
       | .error f => fin st (faultStr f)
-  | "walkrm" :: mask :: rest =>
+  | "walkrm" :: mask :: rest | "walkrmc" :: mask :: rest =>
     match mask.toNat?, key? rest with
     | some m, some key =>
       match walkRm t key (fun i => i < 64 && m.testBit i) with
@@ -181,16 +182,34 @@ def step (st0 : St) (ws : List String) : St × String :=
       | .ok (none, t', a) => fin { st with t := t', fresh := false, live := st.live && !t.opts.unique } s!"allocs={a} loaded -1 ENOMEM"
       | .error f => fin st (faultStr f)
     | _, _ => fin st "bad-op"
-  | ["rt", sp, u, c, tp, f] => match arg sp with
+  | "rt" :: sp :: u :: c :: tp :: f :: encOpt => match arg sp with
     | .ok [s] =>
-      match saveFile [120] t s true with
+      let enc := encOpt != ["0"]
+      if !enc && !(t.nodes.all fun n => n.data.contains 0) then fin st "nonul" else
+      match saveFile [120] t s enc with
       | .ok file =>
         let t2 := init (mkOpts u c tp f)
-        match load Driver.Murmur.murmur3_32 t2 file s true with
+        match load Driver.Murmur.murmur3_32 t2 file s enc with
         | .ok (n, t') => fin { t := t', cur := Cursor.zero, live := true, fresh := false } s!"saved loaded {n}"
         | .error f => fin { st with t := t2, ts := false } (faultStr f)
       | .error f => fin st (faultStr f)
     | _ => fin st "bad-op"
+  | ["inv"] =>
+    let tok (l : List (Bool × Err)) : String := String.join (l.map fun (b, e) => s!" {if b then 1 else 0}:{e.name}")
+    match runCalls invBattery t with
+    | .error f => fin st (faultStr f)
+    | .ok (t1, r1) =>
+      match runCalls invBattery2 t1 with
+      | .error f => fin st (faultStr f)
+      | .ok (t2, r2) =>
+        -- save to / load from a path in a directory that does not exist: false / -1 with ENOENT
+        let env := " 0:ENOENT -1:ENOENT"
+        let gm := match getmultiA t2 none with
+          | .ok [] => "0:ENOENT"
+          | .ok l => s!"{l.length}:0"
+          | .error f => faultStr f
+        fin { st with t := t2 } ("inv" ++ tok r1 ++ " /" ++ tok r2 ++ env ++ " sz=99 gmnull=" ++ gm)
+  | ["lock"] => fin st s!"locked size {size t}"
   | ["end"] => fin { t := init (mkOpts "0" "0" "0" "0"), cur := Cursor.zero, live := true, fresh := false } "end live=0 bad=0"
   | _ => fin st "bad-op"
 
